@@ -8,6 +8,7 @@ theorems cannot carry, a failing-input search against the real code.
 """
 from __future__ import annotations
 
+import glob
 import hashlib
 import json
 import os
@@ -378,7 +379,9 @@ def lean_side(rep: Report, prop: str, regen=None):
                     rep.notes.append('generator %s failed (%s); Props.%s does not depend on its output' % (g, why[:120], prop))
     except Exception as e:  # translator rejected the source
         reasons.append('translator: %r' % (e,))
-    ok, log, secs = lake_build(['Props.' + prop])
+    audit_mods = sorted('Audit.' + os.path.basename(f)[:-5] for f in glob.glob(os.path.join(LEAN, 'Audit', prop + '_*.lean')))
+    ok, log, secs = lake_build(['Props.' + prop] + audit_mods)
+    rep.coverage['audit_modules'] = audit_mods
     rep.coverage['lake_build_s'] = round(secs, 1)
     names = theorem_names(prop)
     rep.obligations = len(names)
